@@ -89,7 +89,9 @@ def _exportable_ws(rng, tag):
             t = used[n]
             if t <= {"histosys", "normsys"} and rng.random() < 0.15 and not any(p["name"] == n for p in plist):
                 plist.append({"name": n, "fixed": True})
-            if t == {"normfactor"} and rng.random() < 0.2:
+            # (an unconstrained parameter whose own name starts with alpha_/gamma_ cannot be marked constant in the
+            # XML format: constants are listed by ROOT-style name, where those prefixes mean something else)
+            if t == {"normfactor"} and rng.random() < 0.2 and not n.startswith(("alpha_", "gamma_")):
                 p = next((p for p in plist if p["name"] == n), None)
                 if p is not None:
                     p["fixed"] = True
